@@ -266,6 +266,7 @@ def generate():
     value_access = []
     flag_access = []
     set_iters = []
+    toplevel = []
     for path in all_py_files():
         rel = os.path.relpath(path, SRC)
         tree = parse(path)
@@ -310,10 +311,26 @@ def generate():
                     for fld in ('_is_fully_reduced', '_evaluation_failed'):
                         if mentions(m, fld):
                             flag_access.append((cls.name, m.name, fld))
-            elif isinstance(node, (ast.Import, ast.ImportFrom, ast.Assign, ast.AnnAssign, ast.If, ast.Expr)):
+            elif isinstance(node, (ast.Import, ast.ImportFrom)):
                 pass
+            elif isinstance(node, ast.Expr) and isinstance(node.value, ast.Constant) and isinstance(node.value.value, str):
+                pass
+            elif isinstance(node, (ast.Assign, ast.AnnAssign, ast.If)):
+                # module-level code other than imports, classes and functions: constants (the name pattern, the step
+                # bound, __all__, type variables) and `if TYPE_CHECKING:` import blocks; recorded verbatim
+                toplevel.append((rel, ast.unparse(node)))
             else:
                 raise TieError('unexpected top-level statement in %s: %s' % (rel, type(node).__name__))
+            if isinstance(node, ast.ClassDef):
+                for st in node.body:
+                    if isinstance(st, ast.FunctionDef):
+                        continue
+                    if isinstance(st, ast.Expr) and isinstance(st.value, ast.Constant) and isinstance(st.value.value, str):
+                        continue
+                    if isinstance(st, ast.Pass):
+                        continue
+                    # class-level code other than methods and docstrings (attribute assignments, aliases, nested classes)
+                    toplevel.append((rel, '%s: %s' % (node.name, ast.unparse(st))))
 
     # operators
     operators = []
@@ -394,6 +411,7 @@ def generate():
     lines.append('Definition gen_set_creations : list (string * string) := ' + pairs(sorted(set(set_creates))) + '.')
     lines.append('Definition gen_public : list string := ' + coq_list([coq_str(p) for p in public]) + '.')
     lines.append('Definition gen_mf_names : list string := ' + coq_list([coq_str(p) for p in mf_names]) + '.')
+    lines.append('Definition gen_toplevel : list (string * string) := ' + pairs(sorted(toplevel)) + '.')
     return '\n'.join(lines) + '\n'
 
 
